@@ -1,10 +1,10 @@
 package main
 
 import (
-	"sort"
 	"fmt"
 	"go/token"
 	"go/types"
+	"sort"
 	"strings"
 
 	"golang.org/x/tools/go/ssa"
@@ -683,7 +683,7 @@ func (g *Gen) doConvert(st *BState, in *ssa.Convert) {
 	case isString(from) && isByteSlice(to):
 		// fresh array holding the bytes of the string
 		arr := g.freshRef(st, g.valName(in)+"_arr")
-	g.assume(st, fmt.Sprintf("(= (rtype %s) 0)", arr)) // not a struct object
+		g.assume(st, fmt.Sprintf("(= (rtype %s) 0)", arr)) // not a struct object
 		g.assume(st, fmt.Sprintf("(= (rtype %s) 0)", arr)) // not a struct object
 		r := g.elemRegion(types.Typ[types.Uint8])
 		cont := g.fresh("cont", "(Array Int Int)")
@@ -943,7 +943,9 @@ func (g *Gen) doNext(st *BState, in *ssa.Next) {
 	kN := g.fresh(in.Name()+"_k", sortOf(mt.Key()))
 	vN := g.fresh(in.Name()+"_v", sortOf(mt.Elem()))
 	ks := sortOf(mt.Key())
-	inDom := func(k string) string { return fmt.Sprintf("(and (not (= %s 0)) (select (select %s %s) %s))", m, d, m, k) }
+	inDom := func(k string) string {
+		return fmt.Sprintf("(and (not (= %s 0)) (select (select %s %s) %s))", m, d, m, k)
+	}
 	facts := []string{
 		fmt.Sprintf("(=> %s (and %s (not (select %s %s))))", okN, inDom(kN), vis, kN),
 		fmt.Sprintf("(=> (not %s) (forall ((k %s)) (! (=> %s (select %s k)) :pattern ((select (select %s %s) k)) :pattern ((select %s k)))))", okN, ks, inDom("k"), vis, d, m, vis),
@@ -1022,6 +1024,7 @@ func (g *Gen) storeSiteObls(st *BState, in *ssa.MapUpdate) {
 			continue
 		}
 		cl.Loop = 1 // seen
+		g.siteCanary(st, label, pos)
 		env := g.baseEnv(st.heap, g.entryHeap)
 		params := env.vars
 		env.vars = map[string]EnvVal{}
